@@ -24,6 +24,9 @@ CLANG_BASE = ['clang++-14', '-std=c++17', '-fno-exceptions', '-fno-rtti', '-fno-
               '-ffp-contract=off', '-fno-strict-aliasing', '-S', '-emit-llvm', '-Wno-everything']
 MODE_FLAGS = {
     'flat': ['-O2', '-DNDEBUG'],
+    'flat_O0': ['-O0', '-DNDEBUG'],
+    'flat_O1': ['-O1', '-DNDEBUG'],
+    'flat_O3': ['-O3', '-DNDEBUG'],
     'modular': ['-O1', '-fno-inline', '-DNDEBUG'],
     'ubsan': ['-O1', '-gline-tables-only', '-fsanitize=undefined,float-cast-overflow', '-fsanitize-trap=all',
               '-fno-sanitize=vptr,function'],
@@ -221,7 +224,7 @@ class Contract:
 
     def __init__(self, fn, real, requires=(), ensures=(), assigns=None, build=None, unwind=1, backends=('sat',),
                  replace=(), kind='F', bounded=None, timeout=300, sig=None, tier='quick', uses=(), flags=(),
-                 poison_flags=False, note='', uf_float=()):
+                 poison_flags=False, note='', uf_float=(), rel=None):
         self.fn, self.real = fn, real
         self.requires, self.ensures = list(requires), list(ensures)
         self.assigns = assigns
@@ -233,6 +236,7 @@ class Contract:
         self.flags = list(flags)
         self.poison_flags = poison_flags
         self.uf_float = tuple(uf_float)
+        self.rel = rel   # (other build tag, [function names]): extracted from another build with prefix R_ (relational contracts)
         self.note = note
 
 
@@ -414,7 +418,7 @@ def _tcheck_build(b, workdir, seed, n_inputs, log):
             ps = [t for t, _ in s['ins']] + [t + '*' for t, _, _ in s['outs']]
             L.append('extern %s %s(%s);' % (s['ret'], n, ', '.join(ps) or 'void'))
             L.append('extern %s T_%s(%s);' % (s['ret'], n, ', '.join(ps) or 'void'))
-        nsz = any('nsz' in t for t in info.get('trusted', []))
+        nsz = any('nsz' in t for t in info.get('trusted', [])) or any(l in ('fminf', 'fmaxf', 'fmin', 'fmax') for l in info.get('libm', []))  # sign of fmin/fmax(+0,-0) is unspecified
         zs = ' || (a == 0 && b == 0)' if nsz else ''
         L.append('static int eqf(float a, float b){ u32 x=ll2c_f32_bits(a), y=ll2c_f32_bits(b); return x==y || (a!=a && b!=b)%s; }' % zs)
         L.append('static int eqd(double a, double b){ u64 x=ll2c_f64_bits(a), y=ll2c_f64_bits(b); return x==y || (a!=a && b!=b)%s; }' % zs)
@@ -487,6 +491,13 @@ def _tcheck_build(b, workdir, seed, n_inputs, log):
         for c in cmds:
             rc, so, se, dt = sh(c, timeout=900, mem_gb=16)
             log('T-check %s: %s %.1fs' % (b.tag, ' '.join(c[:2]), dt))
+            if rc != 0 and c[0] == 'g++':
+                # some configurations (e.g. GLM_FORCE_INLINE: always_inline through a function pointer) are rejected by g++ itself;
+                # fall back to clang++ for the native reference build and say so
+                log('T-check %s: g++ rejects this configuration (%s); using clang++-14 -O2 for the native reference' % (b.tag, se.strip().splitlines()[-1][:160] if se.strip() else ''))
+                c = ['clang++-14'] + c[1:]
+                rc, so, se, dt = sh(c, timeout=900, mem_gb=16)
+                stats.setdefault('native_reference_clang', []).append(b.tag)
             if rc != 0:
                 raise Infra('T-check build failed (%s): %s' % (' '.join(c[:3]), se[-2000:]))
         rc, so, se, dt = sh(['g++', realo, gen + '.o', mainc + '.o', '-lm', '-o', exe], timeout=300)
@@ -517,9 +528,27 @@ def clause_expr(e):
     return e
 
 
-def harness_text(c, sig, gen_text, extra_requires=(), ensures_override=None, canary=True):
+def rel_wrappers(rel_sigs, cxx=False):
+    """component accessors for relational counterparts with out buffers:  R_f__o<k>_<i>(args) = i-th element of the k-th out buffer"""
+    L = []
+    for name, s in rel_sigs.items():
+        if not s['outs']:
+            continue
+        ps = ', '.join('%s %s' % (t, n) for t, n in s['ins'])
+        for k, (t, on, cnt) in enumerate(s['outs']):
+            for i in range(cnt):
+                bufs = ' '.join('%s b%d[%d];' % (t2, k2, c2) for k2, (t2, _, c2) in enumerate(s['outs']))
+                if cxx:
+                    cargs = ', '.join(['(%s)%s' % (ct, n) for (t_, n), ct in zip(s['ins'], s['cpp_ins'])] + ['(%s*)b%d' % (ct, k2) for k2, ct in enumerate(s['cpp_outs'])])
+                else:
+                    cargs = ', '.join([n for _, n in s['ins']] + ['b%d' % k2 for k2 in range(len(s['outs']))])
+                L.append('static inline %s R_%s__o%d_%d(%s) { %s R_%s(%s); return b%d[%d]; }' % (t, name, k, i, ps or 'void', bufs, name, cargs, k, i))
+    return L
+
+
+def harness_text(c, sig, gen_text, extra_requires=(), ensures_override=None, canary=True, rel_sigs=None):
     """C file: generated code + contract declaration + harness.  returns (text, {line: clause name})"""
-    L = ['#define LL2C_CBMC 1', gen_text, '#include "specs.h"']
+    L = ['#define LL2C_CBMC 1', gen_text, '#include "specs.h"'] + (rel_wrappers(rel_sigs) if rel_sigs else [])
     params = ['%s %s' % (t, n) for t, n in sig['ins']] + ['%s *%s' % (t, n) for t, n, cnt in sig['outs']]
     L.append('/* contract for %s (%s) */' % (c.fn, c.real))
     L.append('%s %s(%s)' % (sig['ret'], c.fn, ', '.join(params) or 'void'))
@@ -710,17 +739,24 @@ def native_clause(e):
     return e
 
 
-def replay_program(build, shim, contract, inputs, sanitize=False):
+def replay_program(build, shim, contract, inputs, sanitize=False, rel_build=None):
     """C++ source that calls the real shim on `inputs` and evaluates the contract natively"""
     s = shim.view_sig()
     L = ['// replay of %s against the real code in %s' % (contract.fn, REPO)]
     L.append('#define SHIM extern "C"')
     L.append(build.driver.source(build.defines, only=[shim.name] + list(contract.uses)))
     L.append('#include <cstdio>')
+    if getattr(contract, 'rel', None) and rel_build is not None:
+        for n in contract.rel[1]:
+            s2 = rel_build.driver.shims[n]
+            ps = ['%s' % t for (t, _) in s2.ins] + ['%s*' % t for (t, _, _) in s2.outs]
+            L.append('extern "C" %s R_%s(%s);' % (s2.ret, n, ', '.join(ps)))
     L.append('extern "C" {')
     L.append('#include "ll2c_rt.h"')
     L.append('#include "specs.h"')
     L.append('}')
+    if getattr(contract, 'rel', None) and rel_build is not None:
+        L += rel_wrappers({n: rel_build.driver.shims[n].view_sig() for n in contract.rel[1]}, cxx=True)
     L.append('int main(){')
     args = []
     for (t, n), cppt in zip(s['ins'], s['cpp_ins']):
@@ -756,9 +792,9 @@ def replay_program(build, shim, contract, inputs, sanitize=False):
     return '\n'.join(L) + '\n'
 
 
-def run_replay(build, shim, contract, inputs, workdir, tag, sanitize=False):
+def run_replay(build, shim, contract, inputs, workdir, tag, sanitize=False, rel_build=None):
     src = os.path.join(workdir, 'replay_%s.cpp' % tag)
-    open(src, 'w').write(replay_program(build, shim, contract, inputs))
+    open(src, 'w').write(replay_program(build, shim, contract, inputs, rel_build=rel_build))
     exe = src[:-4]
     flags = ['-O2', '-std=c++17', '-w', '-fno-strict-aliasing', '-ffp-contract=off'] + build.flags + ['-D' + d for d in build.defines]
     if sanitize:
@@ -767,7 +803,18 @@ def run_replay(build, shim, contract, inputs, workdir, tag, sanitize=False):
     else:
         flags = flags + ['-DNDEBUG']
         cc = 'g++'
-    rc, so, se, dt = sh([cc] + flags + ['-I' + REPO, '-I' + RT, '-I' + SPECS, src, '-o', exe, '-lm'], timeout=600, mem_gb=16)
+    extra_objs = []
+    if getattr(contract, 'rel', None) and rel_build is not None:
+        src2 = os.path.join(workdir, 'replay_%s_rel.cpp' % tag)
+        ren = ''.join('#define %s R_%s\n' % (n, n) for n in contract.rel[1])
+        open(src2, 'w').write('#define SHIM extern "C"\n' + ren + rel_build.driver.source(rel_build.defines, only=list(contract.rel[1])))
+        o2 = src2[:-4] + '.o'
+        f2 = [f for f in flags if not f.startswith('-D')] + ['-D' + d for d in rel_build.defines] + rel_build.flags
+        rc, so, se, dt = sh([cc] + f2 + ['-I' + REPO, '-c', src2, '-o', o2], timeout=600, mem_gb=16)
+        if rc != 0:
+            return {'ok': False, 'error': 'replay build (rel) failed: ' + se[-1500:], 'out': ''}
+        extra_objs.append(o2)
+    rc, so, se, dt = sh([cc] + flags + ['-I' + REPO, '-I' + RT, '-I' + SPECS, src] + extra_objs + ['-o', exe, '-lm'], timeout=600, mem_gb=16)
     if rc != 0:
         return {'ok': False, 'error': 'replay build failed: ' + se[-1500:], 'out': ''}
     rc, so, se, dt = sh([exe], timeout=60)
